@@ -1,15 +1,640 @@
+// verifgen rewrites the current /repo working tree into a `go build -overlay`
+// under which p9 runs on the controlled scheduler (see DESIGN.md §2.1).
+//
+// All rewrites are textual splices at positions found in the type-checked
+// AST, and none of them adds or removes a line, so positions in panics,
+// recorded call sites and reports are the original /repo positions.
+//
+// Anything the rewriter does not recognise is a hard error naming file:line.
 package main
 
 import (
+	"encoding/json"
+	"flag"
 	"fmt"
+	"go/ast"
+	"go/token"
+	"go/types"
+	"os"
+	"path/filepath"
+	"sort"
+	"strings"
+
 	"golang.org/x/tools/go/packages"
 )
 
+type edit struct {
+	start, end int
+	text       string
+	prio       int // for equal start offsets: lower first
+}
+
+type fileRW struct {
+	path   string
+	src    []byte
+	edits  []edit
+	useSch bool
+	useVrt bool
+	tf     *token.File
+}
+
+var (
+	repo   = flag.String("repo", "/repo", "repository root")
+	out    = flag.String("out", "", "output directory (rewritten files + overlay.json)")
+	inject = flag.String("inject", "/verif/inject", "directory with files to add to packages (<pkgdir>/zz_*.go)")
+	record = flag.Bool("record", true, "insert plain-access recording (T6)")
+)
+
+// Packages rewritten (relative to the module root).
+var targets = []string{"./p9", "./fsimpl/qids", "./fsimpl/localfs", "./fsimpl/staticfs", "./fsimpl/composefs", "./fsimpl/readdir", "./fsimpl/templatefs"}
+
+// Struct fields whose plain reads/writes are recorded for the happens-before
+// race check: "pkgname.Type.field".
+var recordedFields = map[string]bool{
+	"p9.fidRef.opened": true, "p9.fidRef.openFlags": true, "p9.fidRef.parent": true, "p9.fidRef.pendingXattr": true,
+	"p9.connState.recvShutdown": true, "p9.connState.baseVersion": true,
+	"p9.pool.cache": true, "p9.pool.start": true,
+	"p9.Client.pending": true,
+}
+
+// Best-effort object caches implemented as channels: selects on them use
+// vsched.SelectCache.
+var cacheFields = map[string]bool{"p9.msgFactory.cache": true}
+
+func fatalf(format string, a ...interface{}) {
+	fmt.Fprintf(os.Stderr, "verifgen: "+format+"\n", a...)
+	os.Exit(2)
+}
+
 func main() {
-	cfg := &packages.Config{Mode: packages.NeedName | packages.NeedFiles | packages.NeedSyntax | packages.NeedTypes | packages.NeedTypesInfo | packages.NeedImports | packages.NeedDeps, Dir: "/repo"}
-	pkgs, err := packages.Load(cfg, "./p9", "./fsimpl/qids", "./fsimpl/localfs")
-	fmt.Println(len(pkgs), err)
-	for _, p := range pkgs {
-		fmt.Println(p.PkgPath, len(p.Syntax), p.Errors)
+	flag.Parse()
+	if *out == "" {
+		fatalf("-out required")
 	}
+	cfg := &packages.Config{
+		Mode: packages.NeedName | packages.NeedFiles | packages.NeedCompiledGoFiles | packages.NeedSyntax | packages.NeedTypes | packages.NeedTypesInfo | packages.NeedImports | packages.NeedDeps,
+		Dir:  *repo,
+	}
+	pkgs, err := packages.Load(cfg, targets...)
+	if err != nil {
+		fatalf("load: %v", err)
+	}
+	overlay := map[string]string{}
+	if err := os.MkdirAll(*out, 0o755); err != nil {
+		fatalf("%v", err)
+	}
+	nfiles := 0
+	for _, p := range pkgs {
+		if len(p.Errors) > 0 {
+			fatalf("package %s has errors: %v", p.PkgPath, p.Errors)
+		}
+		for i, f := range p.Syntax {
+			path := p.CompiledGoFiles[i]
+			src, err := os.ReadFile(path)
+			if err != nil {
+				fatalf("%v", err)
+			}
+			rw := &fileRW{path: path, src: src, tf: p.Fset.File(f.Pos())}
+			rewriteFile(p, f, rw)
+			if len(rw.edits) == 0 {
+				continue
+			}
+			res := rw.apply()
+			rel, _ := filepath.Rel(*repo, path)
+			dst := filepath.Join(*out, "src", rel)
+			os.MkdirAll(filepath.Dir(dst), 0o755)
+			if err := os.WriteFile(dst, res, 0o644); err != nil {
+				fatalf("%v", err)
+			}
+			overlay[path] = dst
+			nfiles++
+		}
+	}
+	// Injected files.
+	filepath.Walk(*inject, func(path string, info os.FileInfo, err error) error {
+		if err != nil || info.IsDir() || !strings.HasSuffix(path, ".go") {
+			return nil
+		}
+		rel, _ := filepath.Rel(*inject, path)
+		overlay[filepath.Join(*repo, rel)] = path
+		return nil
+	})
+	b, _ := json.MarshalIndent(map[string]interface{}{"Replace": overlay}, "", " ")
+	if err := os.WriteFile(filepath.Join(*out, "overlay.json"), b, 0o644); err != nil {
+		fatalf("%v", err)
+	}
+	fmt.Printf("verifgen: %d files rewritten, %d overlay entries\n", nfiles, len(overlay))
+}
+
+func (rw *fileRW) off(p token.Pos) int { return rw.tf.Offset(p) }
+
+func (rw *fileRW) replace(from, to token.Pos, text string) {
+	rw.edits = append(rw.edits, edit{rw.off(from), rw.off(to), text, 0})
+}
+func (rw *fileRW) insert(at token.Pos, text string, prio int) {
+	rw.edits = append(rw.edits, edit{rw.off(at), rw.off(at), text, prio})
+}
+
+func (rw *fileRW) text(n ast.Node) string { return string(rw.src[rw.off(n.Pos()):rw.off(n.End())]) }
+
+func (rw *fileRW) site(p token.Pos) string {
+	pos := rw.tf.Position(p)
+	return fmt.Sprintf("%s:%d", filepath.Base(pos.Filename), pos.Line)
+}
+
+func (rw *fileRW) apply() []byte {
+	sort.SliceStable(rw.edits, func(i, j int) bool {
+		a, b := rw.edits[i], rw.edits[j]
+		if a.start != b.start {
+			return a.start < b.start
+		}
+		// insertions before replacements at the same offset
+		ai, bi := a.end == a.start, b.end == b.start
+		if ai != bi {
+			return ai
+		}
+		return a.prio < b.prio
+	})
+	var outb []byte
+	cur := 0
+	for _, e := range rw.edits {
+		if e.start < cur {
+			fatalf("%s: overlapping edits at offset %d (%q)", rw.path, e.start, e.text)
+		}
+		if strings.Contains(e.text, "\n") {
+			fatalf("%s: edit adds a line: %q", rw.path, e.text)
+		}
+		outb = append(outb, rw.src[cur:e.start]...)
+		outb = append(outb, e.text...)
+		cur = e.end
+	}
+	outb = append(outb, rw.src[cur:]...)
+	return outb
+}
+
+func pureExpr(e ast.Expr) bool {
+	switch x := e.(type) {
+	case *ast.Ident:
+		return true
+	case *ast.SelectorExpr:
+		return pureExpr(x.X)
+	case *ast.ParenExpr:
+		return pureExpr(x.X)
+	case *ast.StarExpr:
+		return pureExpr(x.X)
+	}
+	return false
+}
+
+func isMap(info *types.Info, e ast.Expr) bool {
+	t := info.TypeOf(e)
+	if t == nil {
+		return false
+	}
+	_, ok := t.Underlying().(*types.Map)
+	return ok
+}
+
+func isChan(info *types.Info, e ast.Expr) bool {
+	t := info.TypeOf(e)
+	if t == nil {
+		return false
+	}
+	_, ok := t.Underlying().(*types.Chan)
+	return ok
+}
+
+// fieldKey returns "pkg.Type.field" for a selector that denotes a struct field.
+func fieldKey(info *types.Info, sel *ast.SelectorExpr) string {
+	s := info.Selections[sel]
+	if s == nil || s.Kind() != types.FieldVal {
+		return ""
+	}
+	v, ok := s.Obj().(*types.Var)
+	if !ok || !v.IsField() {
+		return ""
+	}
+	// Find the struct type that declares the field (through embedding).
+	recv := s.Recv()
+	for {
+		if p, ok := recv.(*types.Pointer); ok {
+			recv = p.Elem()
+			continue
+		}
+		break
+	}
+	// Walk the index path to the declaring struct.
+	t := recv
+	idx := s.Index()
+	for i := 0; i < len(idx)-1; i++ {
+		st, ok := t.Underlying().(*types.Struct)
+		if !ok {
+			return ""
+		}
+		t = st.Field(idx[i]).Type()
+		if p, ok := t.(*types.Pointer); ok {
+			t = p.Elem()
+		}
+	}
+	n, ok := t.(*types.Named)
+	if !ok {
+		return ""
+	}
+	return n.Obj().Pkg().Name() + "." + n.Obj().Name() + "." + v.Name()
+}
+
+func rewriteFile(p *packages.Package, f *ast.File, rw *fileRW) {
+	info := p.TypesInfo
+	// --- imports -----------------------------------------------------------
+	var importDecl *ast.GenDecl
+	usesRuntimeOnlyForFinalizer := false
+	for _, d := range f.Decls {
+		gd, ok := d.(*ast.GenDecl)
+		if !ok || gd.Tok != token.IMPORT {
+			continue
+		}
+		if importDecl == nil {
+			importDecl = gd
+		}
+		for _, sp := range gd.Specs {
+			is := sp.(*ast.ImportSpec)
+			switch is.Path.Value {
+			case `"sync"`:
+				if is.Name != nil {
+					fatalf("%s: renamed sync import unsupported", rw.site(is.Pos()))
+				}
+				rw.replace(is.Pos(), is.End(), `sync "verif/rt/vsync"`)
+			case `"sync/atomic"`:
+				if is.Name != nil {
+					fatalf("%s: renamed sync/atomic import unsupported", rw.site(is.Pos()))
+				}
+				rw.replace(is.Pos(), is.End(), `atomic "verif/rt/vatomic"`)
+			}
+		}
+	}
+
+	handled := map[ast.Node]bool{} // nodes whose text is replaced wholesale by an enclosing edit
+	written := map[ast.Expr]bool{} // expressions in write context
+	runtimeUses, finalizerUses := 0, 0
+
+	// First pass: find write contexts.
+	ast.Inspect(f, func(n ast.Node) bool {
+		switch x := n.(type) {
+		case *ast.AssignStmt:
+			if x.Tok != token.DEFINE {
+				for _, l := range x.Lhs {
+					markWritten(info, l, written)
+				}
+			}
+		case *ast.IncDecStmt:
+			markWritten(info, x.X, written)
+		case *ast.UnaryExpr:
+			if x.Op == token.AND {
+				written[unparen(x.X)] = true // address taken: treat as write (conservative) unless atomics
+			}
+		}
+		return true
+	})
+
+	var walk func(n ast.Node) bool
+	walk = func(n ast.Node) bool {
+		if n == nil || handled[n] {
+			return false
+		}
+		switch x := n.(type) {
+		case *ast.GoStmt:
+			rw.useSch = true
+			call := x.Call
+			if len(call.Args) == 0 {
+				// go f()  ->  vsched.Go(func() { f() })
+				rw.replace(x.Pos(), call.Pos(), "vsched.Go(func() { ")
+				rw.insert(x.End(), " })", 9)
+			} else {
+				// go f(a, b) -> { _a0 := a; _a1 := b; vsched.Go(func() { f(_a0, _a1) }) }
+				if !pureCallee(call.Fun) {
+					// function literal with parameters: evaluate args first
+				}
+				var pre strings.Builder
+				pre.WriteString("{ ")
+				for i, a := range call.Args {
+					fmt.Fprintf(&pre, "_ga%d := %s; ", i, rw.text(a))
+					handled[a] = true
+				}
+				pre.WriteString("vsched.Go(func() { ")
+				rw.replace(x.Pos(), call.Pos(), pre.String())
+				var args []string
+				for i := range call.Args {
+					args = append(args, fmt.Sprintf("_ga%d", i))
+				}
+				rw.replace(call.Lparen+1, call.Rparen, strings.Join(args, ", "))
+				rw.insert(x.End(), " }) }", 9)
+			}
+		case *ast.SelectStmt:
+			rewriteSelect(info, x, rw, handled)
+		case *ast.SendStmt:
+			rw.useSch = true
+			rw.insert(x.Pos(), "vsched.Send(", 1)
+			rw.replace(x.Chan.End(), x.Value.Pos(), ", ")
+			rw.insert(x.End(), ")", 8)
+		case *ast.AssignStmt:
+			if len(x.Lhs) == 2 && len(x.Rhs) == 1 {
+				if u, ok := unparen(x.Rhs[0]).(*ast.UnaryExpr); ok && u.Op == token.ARROW {
+					rw.useSch = true
+					rw.replace(u.Pos(), u.X.Pos(), "vsched.Recv2(")
+					rw.insert(u.End(), ")", 8)
+					handled[u] = true
+					ast.Inspect(u.X, walk)
+				}
+			}
+		case *ast.UnaryExpr:
+			if x.Op == token.ARROW {
+				rw.useSch = true
+				rw.replace(x.Pos(), x.X.Pos(), "vsched.Recv(")
+				rw.insert(x.End(), ")", 8)
+			}
+		case *ast.RangeStmt:
+			t := info.TypeOf(x.X)
+			if t != nil {
+				switch t.Underlying().(type) {
+				case *types.Chan:
+					fatalf("%s: range over channel is not supported", rw.site(x.Pos()))
+				case *types.Map:
+					rewriteMapRange(info, x, rw, handled)
+				}
+			}
+		case *ast.CallExpr:
+			if id, ok := x.Fun.(*ast.Ident); ok {
+				if b, ok := info.Uses[id].(*types.Builtin); ok {
+					switch b.Name() {
+					case "close":
+						rw.useSch = true
+						rw.replace(id.Pos(), id.End(), "vsched.Close")
+					case "delete":
+						if *record && len(x.Args) == 2 && pureExpr(x.Args[0]) {
+							rw.useVrt = true
+							rw.insert(x.Args[0].Pos(), "vrt.W(", 2)
+							rw.insert(x.Args[0].End(), fmt.Sprintf(", %q)", rw.site(x.Pos())), 7)
+						}
+					}
+				}
+			}
+			if sel, ok := x.Fun.(*ast.SelectorExpr); ok {
+				if pk, ok := sel.X.(*ast.Ident); ok {
+					if pn, ok := info.Uses[pk].(*types.PkgName); ok {
+						switch pn.Imported().Path() {
+						case "runtime":
+							if sel.Sel.Name == "SetFinalizer" {
+								rw.useVrt = true
+								rw.replace(sel.Pos(), sel.End(), "vrt.SetFinalizer")
+								finalizerUses++
+							}
+						case "sync/atomic":
+							// args like &x.f must not be treated as plain writes
+							for _, a := range x.Args {
+								if u, ok := a.(*ast.UnaryExpr); ok && u.Op == token.AND {
+									delete(written, unparen(u.X))
+									markNoRecord(u.X, handled)
+								}
+							}
+						}
+					}
+				}
+			}
+		case *ast.ExprStmt:
+			// Blind atomic add: result discarded.
+			if call, ok := x.X.(*ast.CallExpr); ok {
+				if sel, ok := call.Fun.(*ast.SelectorExpr); ok {
+					if pk, ok := sel.X.(*ast.Ident); ok {
+						if pn, ok := info.Uses[pk].(*types.PkgName); ok && pn.Imported().Path() == "sync/atomic" && strings.HasPrefix(sel.Sel.Name, "Add") {
+							rw.replace(sel.Sel.Pos(), sel.Sel.End(), "Blind"+sel.Sel.Name)
+						}
+					}
+				}
+			}
+		case *ast.IndexExpr:
+			if *record && isMap(info, x.X) && pureExpr(x.X) && !handled[x.X] {
+				rw.useVrt = true
+				fn := "vrt.R("
+				if written[x] {
+					fn = "vrt.W("
+				}
+				rw.insert(x.X.Pos(), fn, 2)
+				rw.insert(x.X.End(), fmt.Sprintf(", %q)", rw.site(x.Pos())), 7)
+				// Register pointer keys at insertion.
+				if written[x] {
+					if kt := info.TypeOf(x.Index); kt != nil {
+						if _, ok := kt.Underlying().(*types.Pointer); ok {
+							rw.insert(x.Index.Pos(), "vrt.K(", 2)
+							rw.insert(x.Index.End(), ")", 7)
+						}
+					}
+				}
+			}
+		case *ast.SelectorExpr:
+			if id, ok := x.X.(*ast.Ident); ok {
+				if pn, ok := info.Uses[id].(*types.PkgName); ok && pn.Imported().Path() == "runtime" {
+					runtimeUses++
+				}
+			}
+			if *record {
+				if key := fieldKey(info, x); key != "" && recordedFields[key] {
+					// Skip fields of map type used as the base of an index
+					// expression etc.: those are recorded as map accesses too,
+					// but recording the field itself is still right.
+					rw.useVrt = true
+					fn := "(*vrt.FR(&"
+					if written[x] {
+						fn = "(*vrt.FW(&"
+					}
+					rw.insert(x.Pos(), fn, 3)
+					rw.insert(x.End(), fmt.Sprintf(", %q, %q))", key, rw.site(x.Pos())), 6)
+				}
+			}
+		}
+		return true
+	}
+	ast.Inspect(f, walk)
+
+	if finalizerUses > 0 && runtimeUses == finalizerUses {
+		usesRuntimeOnlyForFinalizer = true
+	}
+	// --- added imports -------------------------------------------------------
+	var add string
+	if rw.useSch {
+		add += ` vsched "verif/rt/vsched";`
+	}
+	if rw.useVrt {
+		add += ` vrt "verif/rt/vrt";`
+	}
+	if add != "" {
+		if importDecl == nil {
+			fatalf("%s: no import declaration to extend", rw.path)
+		}
+		if importDecl.Lparen.IsValid() {
+			rw.insert(importDecl.Lparen+1, add, 0)
+		} else {
+			rw.insert(importDecl.End(), "; import ("+add+" )", 0)
+		}
+	}
+	if usesRuntimeOnlyForFinalizer {
+		// keep the runtime import used
+		rw.edits = append(rw.edits, edit{len(rw.src), len(rw.src), "var _ = runtime.KeepAlive", 0})
+		if len(rw.src) > 0 && rw.src[len(rw.src)-1] != '\n' {
+			fatalf("%s: file does not end with a newline", rw.path)
+		}
+	}
+}
+
+func pureCallee(e ast.Expr) bool { return true }
+
+// markWritten marks e, and every enclosing struct value reached without a
+// pointer indirection, as written.
+func markWritten(info *types.Info, e ast.Expr, written map[ast.Expr]bool) {
+	e = unparen(e)
+	written[e] = true
+	if sel, ok := e.(*ast.SelectorExpr); ok {
+		if t := info.TypeOf(sel.X); t != nil {
+			if _, isPtr := t.Underlying().(*types.Pointer); !isPtr {
+				if _, isSel := unparen(sel.X).(*ast.SelectorExpr); isSel {
+					markWritten(info, sel.X, written)
+				}
+			}
+		}
+	}
+}
+
+func unparen(e ast.Expr) ast.Expr {
+	for {
+		p, ok := e.(*ast.ParenExpr)
+		if !ok {
+			return e
+		}
+		e = p.X
+	}
+}
+
+// markNoRecord prevents field recording inside an expression that has its
+// own wrapper (edits at identical offsets would nest wrongly).
+func markNoRecord(e ast.Expr, handled map[ast.Node]bool) {
+	ast.Inspect(e, func(n ast.Node) bool {
+		if n != nil {
+			handled[n] = true
+		}
+		return true
+	})
+}
+
+func rewriteMapRange(info *types.Info, x *ast.RangeStmt, rw *fileRW, handled map[ast.Node]bool) {
+	if !pureExpr(x.X) {
+		fatalf("%s: range over impure map expression", rw.site(x.Pos()))
+	}
+	if x.Tok != token.DEFINE && x.Key != nil {
+		fatalf("%s: map range with '=' is not supported", rw.site(x.Pos()))
+	}
+	rw.useVrt = true
+	m := rw.text(x.X)
+	mr := m
+	if *record {
+		mr = fmt.Sprintf("vrt.R(%s, %q)", m, rw.site(x.Pos()))
+	}
+	name := func(e ast.Expr) string {
+		if e == nil {
+			return "_"
+		}
+		return rw.text(e)
+	}
+	k, v := name(x.Key), name(x.Value)
+	var hdr, body string
+	kv := k
+	if kv == "_" {
+		kv = "_mk"
+	}
+	hdr = fmt.Sprintf("for _, %s := range vrt.Keys(%s) {", kv, mr)
+	if v == "_" {
+		body = fmt.Sprintf(" if _, _mok := %s[%s]; !_mok { continue };", m, kv)
+	} else {
+		body = fmt.Sprintf(" %s, _mok := %s[%s]; if !_mok { continue };", v, m, kv)
+	}
+	rw.replace(x.Pos(), x.Body.Lbrace+1, hdr+body)
+	markNoRecord(x.X, handled)
+	if x.Key != nil {
+		handled[x.Key] = true
+	}
+	if x.Value != nil {
+		handled[x.Value] = true
+	}
+}
+
+func rewriteSelect(info *types.Info, x *ast.SelectStmt, rw *fileRW, handled map[ast.Node]bool) {
+	rw.useSch = true
+	hasDefault := false
+	var cases []string
+	idx := 0
+	cache := true
+	for _, c := range x.Body.List {
+		cc := c.(*ast.CommClause)
+		if cc.Comm == nil {
+			hasDefault = true
+			continue
+		}
+		var ch ast.Expr
+		var caseText string
+		switch st := cc.Comm.(type) {
+		case *ast.SendStmt:
+			ch = st.Chan
+			cases = append(cases, fmt.Sprintf("vsched.SendCase(%s, %s)", rw.text(st.Chan), rw.text(st.Value)))
+			caseText = fmt.Sprintf("case %d:", idx)
+		case *ast.ExprStmt:
+			u, ok := unparen(st.X).(*ast.UnaryExpr)
+			if !ok || u.Op != token.ARROW {
+				fatalf("%s: unsupported select clause", rw.site(cc.Pos()))
+			}
+			ch = u.X
+			cases = append(cases, fmt.Sprintf("vsched.RecvCase(%s)", rw.text(u.X)))
+			caseText = fmt.Sprintf("case %d:", idx)
+		case *ast.AssignStmt:
+			u, ok := unparen(st.Rhs[0]).(*ast.UnaryExpr)
+			if !ok || u.Op != token.ARROW || len(st.Rhs) != 1 {
+				fatalf("%s: unsupported select clause", rw.site(cc.Pos()))
+			}
+			ch = u.X
+			cases = append(cases, fmt.Sprintf("vsched.RecvCase(%s)", rw.text(u.X)))
+			tok := st.Tok.String()
+			switch len(st.Lhs) {
+			case 1:
+				caseText = fmt.Sprintf("case %d: %s %s vsched.RecvVal(%s, _sel.V);", idx, rw.text(st.Lhs[0]), tok, rw.text(u.X))
+			case 2:
+				caseText = fmt.Sprintf("case %d: %s, %s %s vsched.RecvVal(%s, _sel.V), _sel.OK;", idx, rw.text(st.Lhs[0]), rw.text(st.Lhs[1]), tok, rw.text(u.X))
+			default:
+				fatalf("%s: unsupported select clause", rw.site(cc.Pos()))
+			}
+		default:
+			fatalf("%s: unsupported select clause", rw.site(cc.Pos()))
+		}
+		if !pureExpr(ch) {
+			fatalf("%s: select on impure channel expression", rw.site(cc.Pos()))
+		}
+		isCache := false
+		if sel, ok := unparen(ch).(*ast.SelectorExpr); ok {
+			if cacheFields[fieldKey(info, sel)] {
+				isCache = true
+			}
+		}
+		if !isCache {
+			cache = false
+		}
+		rw.replace(cc.Pos(), cc.Colon+1, caseText)
+		handled[cc.Comm] = true
+		idx++
+	}
+	fn := "vsched.Select"
+	if cache && hasDefault {
+		fn = "vsched.SelectCache"
+	}
+	hdr := fmt.Sprintf("switch _sel := %s(%v", fn, hasDefault)
+	for _, c := range cases {
+		hdr += ", " + c
+	}
+	hdr += "); _sel.I {"
+	rw.replace(x.Pos(), x.Body.Lbrace+1, hdr)
 }
